@@ -31,6 +31,7 @@ def setup():
 
 
 def run_property(pid, tier, replay=None):
+    common.use_repo()                     # the library under test is ALWAYS the working tree at common.REPO
     mod = importlib.import_module(pid.lower())
     if replay:
         with open(replay) as f:
